@@ -1041,7 +1041,13 @@ pub mod time {
         pub fn duration_since(&self, earlier: SystemTime) -> Result<Duration, std::time::SystemTimeError> {
             self.0.duration_since(earlier.0)
         }
+        /// time from `self` to now on the (possibly virtual) wall clock
+        pub fn elapsed(&self) -> Result<Duration, std::time::SystemTimeError> {
+            SystemTime::now().duration_since(*self)
+        }
     }
+    /// `std::time::UNIX_EPOCH` of the facade clock
+    pub const UNIX_EPOCH: SystemTime = SystemTime::UNIX_EPOCH;
 }
 
 pub mod net {
